@@ -12,7 +12,6 @@ package server
 
 import (
 	"context"
-	"errors"
 	"fmt"
 	"math/rand/v2"
 	"net/netip"
@@ -126,7 +125,8 @@ func (h *c12H) witness() map[string]any {
 
 func (h *c12H) viol(hard bool, key, what string) {
 	if !strings.HasPrefix(key, "c12:reopen-") && !strings.HasPrefix(key, "c12:consecutive-restart") && !strings.HasPrefix(key, "c12:peer-state:") {
-		key += h.m.ctx()
+		// context first, so that one key prefix names one root cause
+		key = "c12:" + h.m.ctx() + strings.TrimPrefix(key, "c12:")
 	}
 	if h.seen[key] {
 		return
@@ -1313,8 +1313,6 @@ func (h *c12H) finish() {
 		rec.Sample(w)
 	}
 }
-
-var errC12 = errors.New("c12")
 
 func TestVerifC12(t *testing.T) {
 	rec := vlib.Open("C12")
